@@ -458,31 +458,60 @@ def _solve_simplex_foc(prob, solver):
         if not bool(kv >= 0):
             raise ShimUnsupported("cvxpy stub: negative norm coefficient (non-convex)")
         Hs.append((kv, H, h0))
-    # fresh solution
+    import torch
+    cand_fn = torch.KERNELS.get("cvx_candidates")
+    cands = list(cand_fn()) if cand_fn is not None else []
+    for cand in cands:
+        cw, cs = cand if isinstance(cand, tuple) else (cand, None)
+        if len(cw) != n:
+            continue
+        okf = _opt_formula(list(cw), c, Hs, n, cs, fresh_s=False)
+        if okf is not None and symx.space().check(z3.Not(okf[0]), timeout_ms=10000) == "unsat":
+            at(list(cw))
+            prob.status = "optimal"
+            _elog("kernel", "cvxpy_simplex", prob, list(cw), okf[1], "candidate")
+            return None
+    # fresh solution: feasible + optimal (convex problem: first-order / subgradient optimality is exact)
     wv = [symx.fresh(f"cvx_w{i}") for i in range(n)]
-    for x in wv:
-        symx.assume((x >= 0).z())
-    symx.assume(_sum(wv).eqz(1))
-    grad = list(c)
-    smooth = True
-    for kv, H, h0 in Hs:
-        val = [h0[r] + _sum([H[i][r] * wv[i] for i in range(n)]) for r in range(len(h0))]
-        nrm = _sum([x * x for x in val]).sqrt()
-        if bool(kv == 0):
-            continue
-        if bool(nrm == 0):
-            smooth = False
-            continue
-        for i in range(n):
-            grad[i] = grad[i] + kv * _sum([H[i][r] * val[r] for r in range(len(val))]) / nrm
-    if smooth:
-        gw = _sum([grad[i] * wv[i] for i in range(n)])
-        for i in range(n):
-            symx.assume((grad[i] >= gw).z())
+    f, svec = _opt_formula(wv, c, Hs, n, None, fresh_s=True)
+    symx.assume(f)
     at(wv)
     prob.status = "optimal"
-    _elog("kernel", "cvxpy_simplex", prob, list(wv), smooth)
+    _elog("kernel", "cvxpy_simplex", prob, list(wv), svec, "fresh")
     return None
+
+
+def _opt_formula(wv, c, Hs, n, svec, fresh_s):
+    """(formula, subgradient witnesses) stating: wv is feasible and optimal for  min c.w + sum_k kappa_k ||H_k^T w + h0_k||  on the simplex.
+    Where a norm vanishes at wv the subgradient kappa * H s with ||s|| <= 1 is used (s: given witness, or fresh when fresh_s)."""
+    grad = list(c)
+    extra = []
+    used = []
+    for t, (kv, H, h0) in enumerate(Hs):
+        val = [h0[r] + _sum([H[i][r] * wv[i] for i in range(n)]) for r in range(len(h0))]
+        if bool(kv == 0):
+            used.append(None)
+            continue
+        sq = _sum([x * x for x in val])
+        if bool(sq == 0):
+            if svec is not None and t < len(svec) and svec[t] is not None:
+                sv = svec[t]
+            elif fresh_s:
+                sv = [symx.fresh(f"cvx_s{t}_{r}") for r in range(len(h0))]
+            else:
+                return None
+            used.append(sv)
+            extra.append((_sum([x * x for x in sv]) <= 1).z())
+            for i in range(n):
+                grad[i] = grad[i] + kv * _sum([H[i][r] * sv[r] for r in range(len(sv))])
+        else:
+            used.append(None)
+            nrm = sq.sqrt()
+            for i in range(n):
+                grad[i] = grad[i] + kv * _sum([H[i][r] * val[r] for r in range(len(val))]) / nrm
+    gw = _sum([grad[i] * wv[i] for i in range(n)])
+    f = z3.And(*[(x >= 0).z() for x in wv], _sum(wv).eqz(1), *[(grad[i] >= gw).z() for i in range(n)], *extra)
+    return f, used
 
 
 def _solve_uninterpreted(prob, solver, warm_start, kw):
